@@ -5,6 +5,7 @@ import PermutaModel.Lemmas.C17CleanUp
 import PermutaModel.Lemmas.C17SubMesh
 import PermutaModel.Lemmas.C17MaxMesh
 import PermutaModel.Lemmas.C17Suffice
+import PermutaModel.Lemmas.C17Order
 import PermutaModel.Spec.C17
 
 /-!
@@ -16,9 +17,13 @@ Property theorems only.  `Model.C17.*` mirrors `permuta/bisc/bisc.py` and
 `A` of length at most `n` avoids all learned mesh patterns"; `Model.containsMesh` is mesh-pattern
 containment (Model/Mesh.lean, C03).
 
+Order independence (last section): the hitting-set recursion is also given as a relation `HitRun`
+whose runs branch on an *arbitrary* free cell (CPython iterates over a `set` there), `forb` as the
+relation `ForbRun` built from such runs; the printed result does not depend on the choices, nor on
+the order in which the input is listed.
+
 Not proved here (evaluated by the harness on the implementation's actual output, see `PARTIAL` in
-`harness/c17.py`): `auto_bisc`, independence of the order
-in which a list input is given (and of CPython's set iteration order inside the hitting-set search).
+`harness/c17.py`): `auto_bisc`.
 -/
 open Model Model.C17
 
@@ -465,5 +470,159 @@ theorem permsLex_exact (k : Nat) (p : NSeq) : p ∈ permsLex k ↔ IsPerm p ∧ 
   mem_permsLex_iff k p
 
 example : [1, 0, 2] ∈ permsLex 3 := (permsLex_exact 3 [1, 0, 2]).mpr (by decide)
+
+/-! ## Order independence
+
+`HitRun perm bad ci C forb lst r`: `r` is the list returned by *some* execution of
+`rec_w_reduce_pattern_pos(C, forb, lst, perm, …)`, the cell `B` of `for b in lst0: B = b; if B not in
+forb: break` being any cell of `lst0` outside `forb`.  `finalize` is the size-sorted minimal filter of
+`find_badpatts`; `ForbRun gp ci M out`: `out` is returned by some execution of `forb(ci, gp, M)` in
+which every call of the recursion is an arbitrary `HitRun`.  `Driver.C17.showDict` is the canonical
+line the driver prints (lengths, patterns, shadings and cells sorted). -/
+
+/-- the model's deterministic recursion (first free cell in list order) is one of the runs, and the
+    model's `forb` is one `ForbRun` -/
+theorem model_is_a_run (perm : NSeq) (bad : PattDict) (ci : List Nat) (C forb' : Shading)
+    (lst : List Shading) (gp : List Level) (M : Nat) :
+    HitRun perm bad ci C forb' lst (hitting perm bad ci C forb' lst) ∧ ForbRun gp ci M (forb gp ci M) :=
+  ⟨hitting_isRun perm bad ci C forb' lst, forb_isRun gp ci M⟩
+
+/-- **the raw result of the recursion does depend on the cell branched on first**: for the family
+    `[{(0,0),(0,1)}, {(0,1)}]` the run that takes `(0,0)` first returns the non-minimal set
+    `{(0,1),(0,0)}`, the run that takes `(0,1)` first does not return it (nor an equal set). -/
+theorem hitting_raw_result_depends_on_choice :
+    ∃ r1 r2, HitRun [0] [] [] [] [] [[(0, 0), (0, 1)], [(0, 1)]] r1 ∧
+      HitRun [0] [] [] [] [] [[(0, 0), (0, 1)], [(0, 1)]] r2 ∧
+      ∃ H ∈ r1, ∀ H' ∈ r2, ¬ SetEq H H' := by
+  refine ⟨([[(0, 1), (0, 0)]] ++ []) ++ ([[(0, 1)]] ++ []), [[(0, 1)]] ++ [], ?_, ?_,
+    [(0, 1), (0, 0)], by simp, ?_⟩
+  · refine .branch _ _ _ [(0, 0), (0, 1)] [[(0, 1)]] (0, 0) _ _ (by decide) (by decide) (by decide)
+      (by decide) (by decide) ?_ ?_
+    · refine .branch _ _ _ [(0, 1)] [] (0, 1) _ _ (by decide) (by decide) (by decide)
+        (by decide) (by decide) ?_ ?_
+      · exact .done _ _ _ (by decide) (by decide)
+      · exact .dead _ _ _ (by decide)
+    · refine .branch _ _ _ [(0, 0), (0, 1)] [[(0, 1)]] (0, 1) _ _ (by decide) (by decide) (by decide)
+        (by decide) (by decide) ?_ ?_
+      · exact .done _ _ _ (by decide) (by decide)
+      · exact .dead _ _ _ (by decide)
+  · refine .branch _ _ _ [(0, 0), (0, 1)] [[(0, 1)]] (0, 1) _ _ (by decide) (by decide) (by decide)
+      (by decide) (by decide) ?_ ?_
+    · exact .done _ _ _ (by decide) (by decide)
+    · exact .dead _ _ _ (by decide)
+  · intro H' hH' he
+    simp only [List.append_nil, List.mem_singleton] at hH'
+    subst hH'
+    have := (he (0, 0)).mp (by simp)
+    simp at this
+
+/-- **what `find_badpatts` computes**: for every run `r` of the recursion started with `C = forb = ∅`
+    on a non-empty family `Ls`, the list kept by the size-sorted filter consists of minimal members
+    of the family of sets that meet every member of `Ls` and pass the pruning test, and every such
+    minimal set is listed (as a set). -/
+theorem find_badpatts_lists_minimal_admissible_hitting_sets (perm : NSeq) (bad : PattDict)
+    (ci : List Nat) (Ls r : List Shading) (hr : HitRun perm bad ci [] [] Ls r) (hne : Ls ≠ []) :
+    (∀ R ∈ finalize r, MinAdm perm bad ci Ls R) ∧
+    (∀ R, MinAdm perm bad ci Ls R → ∃ R' ∈ finalize r, SetEq R' R) :=
+  ⟨finalize_minAdm hr hne, finalize_complete hr hne⟩
+
+/-- **`hitting_order_independence`**: any two runs of the recursion on the same family (whatever
+    free cell each call branches on) give, after `find_badpatts`' filter, the same set of sets of
+    cells, each listed once and without repeated cells; the printed shading list is the same. -/
+theorem hitting_order_independence (perm : NSeq) (bad : PattDict) (ci : List Nat)
+    (Ls r r' : List Shading) (hr : HitRun perm bad ci [] [] Ls r) (hr' : HitRun perm bad ci [] [] Ls r') :
+    ShsEquiv (finalize r) (finalize r') ∧ CleanShs (finalize r) ∧ CleanShs (finalize r') ∧
+      Driver.C17.showShs (finalize r) = Driver.C17.showShs (finalize r') := by
+  have hc := finalize_clean hr
+  have hc' := finalize_clean hr'
+  have he : ShsEquiv (finalize r) (finalize r') := by
+    by_cases hne : Ls = []
+    · subst hne; rw [hr.nil_family, hr'.nil_family]; exact ShsEquiv.refl _
+    · constructor
+      · intro R hR
+        obtain ⟨R', hR', h⟩ := finalize_complete hr' hne R (finalize_minAdm hr hne R hR)
+        exact ⟨R', hR', h.symm⟩
+      · intro R' hR'
+        exact finalize_complete hr hne R' (finalize_minAdm hr' hne R' hR')
+  exact ⟨he, hc, hc', showShs_congr he hc hc'⟩
+
+/-- non-vacuity: the two runs of `hitting_raw_result_depends_on_choice` return different lists,
+    and `{(0,1)}` is listed after the filter -/
+example : ∃ r1 r2, r1 ≠ r2 ∧ HitRun [0] [] [] [] [] [[(0, 0), (0, 1)], [(0, 1)]] r1 ∧
+    HitRun [0] [] [] [] [] [[(0, 0), (0, 1)], [(0, 1)]] r2 ∧
+    Driver.C17.showShs (finalize r1) = Driver.C17.showShs (finalize r2) ∧
+    ∃ R' ∈ finalize r1, SetEq R' [(0, 1)] := by
+  obtain ⟨r1, r2, h1, h2, H, hH, hne⟩ := hitting_raw_result_depends_on_choice
+  refine ⟨r1, r2, ?_, h1, h2, (hitting_order_independence _ _ _ _ _ _ h1 h2).2.2.2, ?_⟩
+  · rintro rfl; exact hne H hH (SetEq.refl H)
+  · apply finalize_complete h1 (by simp)
+    refine ⟨?_, by decide, ?_⟩
+    · intro L hL
+      simp only [List.mem_cons, List.not_mem_nil, or_false] at hL
+      rcases hL with rfl | rfl <;> exact ⟨(0, 1), by simp, by simp⟩
+    · intro H hH _ _ b hb
+      simp only [List.mem_singleton] at hb; subst hb
+      obtain ⟨b, hbH, hb⟩ := hH [(0, 1)] (by simp)
+      simp only [List.mem_singleton] at hb; subst hb; exact hbH
+
+/-- **`forb` does not depend on the cells branched on**: for every `goodpatts`, check interval and
+    `M`, every execution of `forb` prints the same line as the model's deterministic one. -/
+theorem forb_choice_independence (gp : List Level) (ci : List Nat) (M : Nat) (out : PattDict)
+    (h : ForbRun gp ci M out) :
+    Driver.C17.showDict out = Driver.C17.showDict (forb gp ci M) := by
+  obtain ⟨h1, h2, h3⟩ := forbRun_equiv h (forb_isRun gp ci M) (fun _ _ p _ => GpEquivAt.refl gp p)
+  exact showDict_congr h1 h2 h3
+
+/-- **`mine` reads its input as a set**: for a checked length `|π|`, (1) `goodpatts[|π|]` has the key
+    `π` exactly when `π` is a member or occurs in a member of length at most `N`, and (2) a set meets
+    every member of `goodpatts[|π|][π]` exactly when `π` is no member and the set meets the hit set
+    of every occurrence of `π` in a member of length at most `N` - neither mentions the order in which
+    the members are listed or processed. -/
+theorem mine_goodpatts_semantics (D : Nat → List NSeq) (M N : Nat)
+    (hD : ∀ k, ∀ p ∈ D k, IsPerm p ∧ p.length = k) (π : NSeq) (hπ : IsPerm π)
+    (hj : π.length ∈ (mine D M N).1) :
+    ((∃ Ls, alGet ((mine D M N).2.getD π.length []) π = some Ls) ↔ SemSome D N π) ∧
+    ∀ Ls, alGet ((mine D M N).2.getD π.length []) π = some Ls →
+      ∀ H, HitsAll H Ls ↔ SemHits D N π H :=
+  ⟨mine_some_iff D M N hD π hπ hj, fun Ls hLs H => mine_hits_iff D M N hD π hπ hj Ls hLs H⟩
+
+/-- **order and choice independence of `forb ∘ mine`**: for two dictionaries whose levels are
+    rearrangements of each other (duplicates kept as they are), any two executions return
+    dictionaries with the same lengths, the same classical patterns and per pattern the same set of
+    shadings, each listed once; the printed lines coincide. -/
+theorem forb_mine_order_independence (D D' : Nat → List NSeq) (hperm : ∀ k, (D k).Perm (D' k))
+    (M N : Nat) (hD : ∀ k, ∀ p ∈ D k, IsPerm p ∧ p.length = k) (out out' : PattDict)
+    (h : ForbRun (mine D M N).2 (mine D M N).1 M out)
+    (h' : ForbRun (mine D' M N).2 (mine D' M N).1 M out') :
+    DictEquiv out out' ∧ CleanDict out ∧ CleanDict out' ∧
+      Driver.C17.showDict out = Driver.C17.showDict out' := by
+  obtain ⟨h1, h2, h3⟩ := forb_mine_order_independent D D' hperm M N hD out out' h h'
+  exact ⟨h1, h2, h3, showDict_congr h1 h2 h3⟩
+
+/-- **`list_order_independence`**: for every list `A` of permutations and every rearrangement `A'`
+    of it (duplicates are kept, as `bisc` keeps them), all bounds `m`, `n` (given or `None`) and
+    every input representation, the line printed for `bisc(A, m, n)` - the canonical form of the
+    learned dictionary, or the error - is the line printed for `bisc(A', m, n)`. -/
+theorem list_order_independence (rep : Rep) (A A' : List NSeq) (hperm : A.Perm A')
+    (hA : ∀ p ∈ A, IsPerm p) (m : Nat) (n : Option Nat) :
+    Proto.showExcept Driver.C17.showDict (bisc rep A m n) =
+      Proto.showExcept Driver.C17.showDict (bisc rep A' m n) :=
+  bisc_show_perm rep A A' hperm hA m n
+
+/-- the same for duplicate-free lists with the same members -/
+theorem list_order_independence_set (rep : Rep) (A A' : List NSeq) (hn : A.Nodup) (hn' : A'.Nodup)
+    (hmem : ∀ p, p ∈ A ↔ p ∈ A') (hA : ∀ p ∈ A, IsPerm p) (m : Nat) (n : Option Nat) :
+    Proto.showExcept Driver.C17.showDict (bisc rep A m n) =
+      Proto.showExcept Driver.C17.showDict (bisc rep A' m n) :=
+  bisc_show_perm rep A A' ((List.perm_ext_iff_of_nodup hn hn').mpr hmem) hA m n
+
+/-- non-vacuity: for `A = [021, 012, 0]` and its reversal (`m = 2`, `n = 3`) the intermediate
+    `goodpatts` dictionaries differ (key order and the order of the recorded sets), the printed
+    results coincide -/
+example : (mine (mkD .list [[0, 2, 1], [0, 1, 2], [0]] 3) 2 3).2 ≠
+      (mine (mkD .list [[0], [0, 1, 2], [0, 2, 1]] 3) 2 3).2 ∧
+    Proto.showExcept Driver.C17.showDict (bisc .list [[0, 2, 1], [0, 1, 2], [0]] 2 (some 3)) =
+      Proto.showExcept Driver.C17.showDict (bisc .list [[0], [0, 1, 2], [0, 2, 1]] 2 (some 3)) :=
+  ⟨by decide, list_order_independence .list _ _ (by decide) (by decide) 2 (some 3)⟩
 
 end C17
